@@ -38,7 +38,10 @@ func (s *LookupJoin) Run(ctx ExecutionContext, produce ProduceFn, metaSend MetaS
 			}
 
 			return nil
-		}, metaSend); err != nil {
+		}, func(ctx ProduceContext, msg MetadataMessage) error {
+			// The joined stream is run again for every source record, so its watermarks are meaningless downstream.
+			return nil
+		}); err != nil {
 			return fmt.Errorf("couldn't run joined stream: %w", err)
 		}
 
